@@ -204,4 +204,17 @@ class C10(Spec):
         return genops.gen_dim(rng, tier)
 
 
-PROPS = {"C10": C10(), "C08": C08(), "C09": C09(), "C11": C11(), "C02": C02(), "C03": C03(), "C13": C13(), "C16": C16(), "C01": C01(), "C04": C04(), "C05": C05(), "C12": C12()}
+class C07(Spec):
+    lean_modules = ["Varint.Props.C07"]
+    rule = ("arrays of IEEE-754 patterns (±0, subnormals, min/max normal, infinities, NaNs with payloads, significands that "
+            "carry on rounding at every kept width, same-magnitude and 1e-308..1e308 mixtures) x 4 precisions x 3 exponent "
+            "modes; decoded values compared bitwise (FULL / specials) or by exact relative error in long double; "
+            "automatic selection probed on both sides of every threshold")
+    assumptions = ["the array framing (bitmaps, exponent sections, bit-packed mantissas) is tied by the correspondence, "
+                   "the theorems are per value"]
+
+    def gen(self, rng, tier):
+        return genops.gen_float(rng, tier)
+
+
+PROPS = {"C07": C07(), "C10": C10(), "C08": C08(), "C09": C09(), "C11": C11(), "C02": C02(), "C03": C03(), "C13": C13(), "C16": C16(), "C01": C01(), "C04": C04(), "C05": C05(), "C12": C12()}
